@@ -26,6 +26,10 @@ CHECKS = {
    "explicit-state breadth-first search over cycle histories applied to the real sorter (replay-from-fresh), merged at cycle boundaries on a reflective canonical key, run to closure; reference model = sorted multiset compared after every operation",
    "All histories of any number of cycles whose per-cycle shapes are in the stated alphabet (push counts on both sides of the chunk size, every value word over {1,2}, every pull count class), for chunk 1..3 x AutoClear x concurrent flag x int/struct elements: every history of <=2 (thorough <=3) cycles is run unmerged; beyond that states are merged on the sorter's private state read by reflection and the search closes.",
    "Protocol order push* finalise pull* clear; merging assumes equal boundary keys imply equal futures (key = fast,pos,len,chunk,pool,writable,files,error; a missing field disables merging); real files on tmpfs."),
+ "C17": (E3, "exploration", "DESIGN.md §3 C17",
+   "complete enumeration of 7 built-in alphabets x 256 letters, bounded-exhaustive enumeration of generated alphabet and pairing definitions, against restated definitions",
+   "Complete for the built-ins (every letter value, every law of the statement) - a decision for those tables; bounded-exhaustive for constructors: every definition of length <=4 (thorough 5) over a 5-6 letter pool, every pairing over words of length <=3 (thorough 4) over {a,c,g,t}, mismatched lengths and non-ASCII runes at every position.",
+   "Built-in definitions are restated in the harness; pairing definitions that give one letter two different partners are out of scope (neither accept nor reject is demanded); only pairings closed over the alphabet are used for the valid-to-valid law."),
 }
 PENDING = {}  # id -> reason, for properties not (yet) claimed
 
